@@ -37,31 +37,25 @@ theorem power_step (w : World) (op : Op) (k : Nat) :
         if accepted w j && affects w j k then (runningOf w k).map (fun _ => true) else runningOf w k
       | some (j, false) =>
         if affects w j k then (runningOf w k).map (fun _ => false) else runningOf w k
-      | none => runningOf w k := by
-  rcases step_world_cases w op with ⟨hp, f⟩ | ⟨j, on, hp, hw, h⟩ | ⟨j, t, hp, hw, ha, h⟩ |
-      ⟨j, t, hp, hw, ha, h⟩ | ⟨j, t, hp, hw, h⟩
-  · rw [hp]; exact f.runningOf k
-  · rw [hp, h]
-    have hacc : accepted w j = false := by simp only [accepted, hw]
-    cases on with
-    | true => simp only [hacc, Bool.false_and, Bool.false_eq_true, if_false]
-    | false =>
-      simp only []
-      split
-      next haf =>
-        have : k = j := by simpa [affects, hw] using haf
-        subst this
-        simp only [runningOf, hw, Option.map_none]
-      · rfl
-  · rw [hp, h]; simp only [ha, Bool.false_and, Bool.false_eq_true, if_false]
-  · rw [hp, h, runningOf_powerWorld hw]; simp only [ha, Bool.true_and]
-  · rw [hp, h, runningOf_powerWorld hw]
+      | none => runningOf w k :=
+  runningOf_step w op k
 
 /-- Every operation that is not a POWERON/POWEROFF command (any other command, malformed or
 undecodable control datagrams, data datagrams, ticks, jumps) leaves every `running` flag alone. -/
 theorem other_ops_keep_power (w : World) (op : Op) (h : powerCmd op = none) (k : Nat) :
     runningOf (step w op).world k = runningOf w k := by
   rw [power_step, h]
+
+/-- ... nor the wiring-independent clock state: links and generator flag stay, and the wiring of
+every transceiver (ports, children, clock ownership) is never changed by any operation at all. -/
+theorem other_ops_keep_clock (w : World) (op : Op) (h : powerCmd op = none) :
+    (step w op).world.clkLinks = w.clkLinks ∧ (step w op).world.clkRunning = w.clkRunning ∧
+    (w.clkSrc.isSome = true → (step w op).world.clkSrc.isSome = true) :=
+  ⟨(step_no_power h).hlinks, (step_no_power h).hclk, (step_no_power h).hsrc⟩
+
+theorem wiring_never_changes (w : World) (op : Op) :
+    (step w op).world.trxs.map wiring = w.trxs.map wiring :=
+  step_wiring w op
 
 /-- The acceptance of POWERON is visible in the (single) reply datagram. -/
 theorem poweron_reply {w : World} {op : Op} {j : Nat} {t : Trx} (h : powerCmd op = some (j, true))
@@ -89,49 +83,6 @@ theorem reply_octets :
   decide
 
 /-! ### 3. histories: last effective power command -/
-
-theorem spec_step_inv {w : World} {cur : Nat → Bool}
-    (h : ∀ (k : Nat) (t : Trx), w.trxs[k]? = some t → t.running = cur k) (op : Op) :
-    ∀ (k : Nat) (t : Trx), (step w op).world.trxs[k]? = some t → t.running = specPowerStep w op cur k := by
-  intro k t' ht'
-  have hacc : ∀ j, accepted w j = (!cur j && readyOf w j) := by
-    intro j
-    unfold accepted readyOf
-    cases hj : w.trxs[j]? with
-    | none => simp
-    | some t => simp only [h j t hj]
-  have hk : k < w.trxs.length := by rw [← step_length w op]; exact lt_of_getElem? ht'
-  obtain ⟨t, ht⟩ : ∃ t, w.trxs[k]? = some t := ⟨w.trxs[k], List.getElem?_eq_getElem hk⟩
-  have hps := power_step w op k
-  simp only [runningOf, ht', ht, Option.map_some] at hps
-  unfold specPowerStep
-  cases hp : powerCmd op with
-  | none => rw [hp] at hps; simp only [Option.some.injEq] at hps; rw [hps]; exact h k t ht
-  | some jo =>
-    obtain ⟨j, on⟩ := jo
-    rw [hp] at hps
-    cases on with
-    | true =>
-      simp only [] at hps ⊢
-      rw [← hacc j]
-      split at hps <;> rename_i hc
-      · rw [if_pos hc]; simpa using hps
-      · rw [if_neg hc]; simp only [Option.some.injEq] at hps; rw [hps]; exact h k t ht
-    | false =>
-      simp only [] at hps ⊢
-      split at hps <;> rename_i hc
-      · rw [if_pos hc]; simpa using hps
-      · rw [if_neg hc]; simp only [Option.some.injEq] at hps; rw [hps]; exact h k t ht
-
-theorem spec_run_inv (ops : List Op) : ∀ (w : World) (cur : Nat → Bool),
-    (∀ (k : Nat) (t : Trx), w.trxs[k]? = some t → t.running = cur k) →
-    ∀ (k : Nat) (t : Trx), (run w ops).1.trxs[k]? = some t → t.running = specRunningFrom w cur ops k := by
-  induction ops with
-  | nil => intro w cur h k t ht; exact h k t ht
-  | cons op ops ih =>
-    intro w cur h k t ht
-    rw [run_cons_world] at ht
-    exact ih _ _ (spec_step_inv h op) k t ht
 
 /-- After any history from a built application, a transceiver is running iff the last effective
 power command for it (its own, or its managing parent's) was an accepted POWERON. -/
@@ -213,19 +164,6 @@ theorem tick_no_attribute_error {w : World} (h : Reachable w) (hr : w.clkRunning
   | some fn => exact ⟨fn, rfl, tick_eq_of_src hr hs⟩
 
 /-! ### 5. destinations of the clock indications -/
-
-theorem filterMap_links {w : World} (f : Trx → Dgram) (l : List Nat)
-    (h : ∀ i ∈ l, ∃ t, w.trxs[i]? = some t ∧ t.hasClock = true ∧ t.running = true) :
-    l.filterMap (fun i => (w.trxs[i]?).map f) = (runningClockOwners w l).map f ∧
-    (runningClockOwners w l).map some = l.map (fun i => w.trxs[i]?) := by
-  induction l with
-  | nil => exact ⟨rfl, rfl⟩
-  | cons i l ih =>
-    obtain ⟨t, ht, h1, h2⟩ := h i List.mem_cons_self
-    obtain ⟨ih1, ih2⟩ := ih (fun i hi => h i (List.mem_cons_of_mem _ hi))
-    unfold runningClockOwners at ih1 ih2 ⊢
-    simp only [List.filterMap_cons, ht, Option.map_some, h1, h2, Bool.and_self, if_true, List.map_cons,
-      ih1, ih2, and_self]
 
 /-- In a reachable world the indication list of the model is the list the property demands:
 one `IND CLOCK <fn>` per clock link (= running clock owner), from its clock socket to base port
@@ -359,5 +297,90 @@ theorem port_plan {seed : Nat} {extra : List (Nat × Nat × Nat)} {w : World}
     exact ⟨t, ht, h2, h3, h5, h4⟩
   · obtain ⟨t, ht, -, h2, h3, h4, h5⟩ := wf.ms
     exact ⟨t, ht, h2, h3, h5, h4⟩
+
+/-! ### non-vacuity: a concrete application with a child, and a short history -/
+
+/-- a control datagram carrying the ASCII text `s` -/
+def cmd (s : String) : List Nat := encodeUtf8 (lit s)
+
+/-- BTS (0, manages children), MS (1), child 1 of the BTS (2), an extra parent on port 7700 (3) -/
+def exWorld : World :=
+  match build 0 [(1, 5700, 1), (3, 7700, 0)] with
+  | .ok w => w
+  | .error _ => { trxs := [] }
+
+def exHistory : List Op :=
+  [ .ctrl 0 5801 (cmd "CMD POWERON\x00"),          -- refused: not tuned
+    .ctrl 0 5801 (cmd "CMD RXTUNE 935000\x00"),
+    .ctrl 0 5801 (cmd "CMD TXTUNE 890000\x00"),
+    .ctrl 0 5801 (cmd "CMD POWERON\x00"),          -- accepted: BTS and its child 2 run, clock starts
+    .ctrl 2 5803 (cmd "CMD POWEROFF\x00"),         -- the child alone is switched off
+    .tick,
+    .ctrl 0 5801 (cmd "CMD POWEROFF\x00") ]        -- clock stops
+
+example : build 0 [(1, 5700, 1), (3, 7700, 0)] = .ok exWorld := rfl
+example : exWorld.trxs.length = 4 := by decide +kernel
+example : (exHistory.map powerCmd) = [some (0, true), none, none, some (0, true), some (2, false), none, some (0, false)] := by
+  decide +kernel
+example : (List.range 4).map (runningOf (run exWorld (exHistory.take 4)).1) = [some true, some false, some true, some false] := by decide +kernel
+
+/-- the example world is built, well wired and initial; the history is reachable -/
+example : WF exWorld ∧ Initial exWorld := wiring_wf (seed := 0) (extra := [(1, 5700, 1), (3, 7700, 0)]) rfl
+example : WF exWorld := by decide +kernel
+example : Reachable (run exWorld exHistory).1 :=
+  ⟨0, [(1, 5700, 1), (3, 7700, 0)], exWorld, exHistory, rfl, rfl⟩
+/-- the BTS manages its child 2 and nobody else; the child manages only itself -/
+example : (List.range 4).map (affects exWorld 0) = [true, false, true, false] ∧
+    (List.range 4).map (affects exWorld 2) = [false, false, true, false] := by decide +kernel
+/-- POWERON of the untuned BTS is refused and answered -1; nothing runs -/
+example : accepted exWorld 0 = false ∧
+    (step exWorld (.ctrl 0 5801 (cmd "CMD POWERON\x00"))).out = [⟨5701, 1, 5801, rspPowerOnFail⟩] := by
+  decide +kernel
+/-- after tuning POWERON is accepted: parent 0 and child 2 run, the clock runs with one link -/
+example :
+    let w := (run exWorld (exHistory.take 3)).1
+    accepted w 0 = true ∧ (step w (.ctrl 0 5801 (cmd "CMD POWERON\x00"))).out = [⟨5701, 1, 5801, rspPowerOnOk⟩] ∧
+    let w' := (run exWorld (exHistory.take 4)).1
+    (List.range 4).map (runningOf w') = [some true, some false, some true, some false] ∧
+    w'.clkLinks = [0] ∧ w'.clkRunning = true ∧ w'.clkSrc = some 0 := by
+  decide +kernel
+/-- the child is then switched off individually (reply 0); the parent and the clock keep running,
+and the tick sends one `IND CLOCK 0` from the BTS clock port 5700 to port 5800 -/
+example :
+    let w := (run exWorld (exHistory.take 5)).1
+    (List.range 4).map (runningOf w) = [some true, some false, some false, some false] ∧
+    w.clkLinks = [0] ∧ w.clkRunning = true ∧
+    (tick w).out = [⟨5700, 1, 5800, encodeUtf8 (lit "IND CLOCK 0\x00")⟩] ∧
+    clockInds w 0 = [⟨5700, 1, 5800, encodeUtf8 (lit "IND CLOCK 0\x00")⟩] := by
+  decide +kernel
+/-- POWEROFF of the BTS stops the clock; the spec fold agrees with the model along the way -/
+example :
+    let w := (run exWorld exHistory).1
+    (List.range 4).map (runningOf w) = [some false, some false, some false, some false] ∧
+    w.clkLinks = [] ∧ w.clkRunning = false ∧ (tick w).out = [] ∧
+    (List.range 4).map (specRunning exWorld exHistory) = [false, false, false, false] ∧
+    (List.range 4).map (specRunning exWorld (exHistory.take 4)) = [true, false, true, false] ∧
+    (List.range 4).map (specRunning exWorld (exHistory.take 5)) = [true, false, false, false] := by
+  decide +kernel
+/-- a child can also be powered on individually: no clock link, the generator stays off -/
+example :
+    let w := (run exWorld [.ctrl 2 5803 (cmd "CMD RXTUNE 935000\x00"), .ctrl 2 5803 (cmd "CMD TXTUNE 890000\x00"),
+      .ctrl 2 5803 (cmd "CMD POWERON\x00")]).1
+    (List.range 4).map (runningOf w) = [some false, some false, some true, some false] ∧
+    w.clkLinks = [] ∧ w.clkRunning = false := by
+  decide +kernel
+/-- queued bursts and hopping are forgotten by POWEROFF (hypotheses of `poweroff_forgets` are met) -/
+example : powerCmd (.ctrl 0 5801 (cmd "CMD POWEROFF\x00")) = some (0, false) ∧ affects exWorld 0 2 = true := by
+  decide +kernel
+/-- a hopping configuration makes the BTS ready; POWEROFF forgets it again (parent and child) -/
+example :
+    let w := (run exWorld [.ctrl 0 5801 (cmd "CMD SETFH 1 0 935000 890000\x00"),
+      .ctrl 2 5803 (cmd "CMD SETFH 1 0 935000 890000\x00"), .ctrl 0 5801 (cmd "CMD POWERON\x00")]).1
+    (List.range 4).map (fun k => (w.trxs[k]?).map (fun t => (t.running, t.fh.isSome))) =
+      [some (true, true), some (false, false), some (true, true), some (false, false)] ∧
+    let w' := (step w (.ctrl 0 5801 (cmd "CMD POWEROFF\x00"))).world
+    (List.range 4).map (fun k => (w'.trxs[k]?).map (fun t => (t.running, t.fh.isSome, t.txQueue.length))) =
+      [some (false, false, 0), some (false, false, 0), some (false, false, 0), some (false, false, 0)] := by
+  decide +kernel
 
 end OsmoVerif.Props.C12
